@@ -38,7 +38,19 @@ ElfNamesOk(p) == p.es \in {40, 64} /\ p.shndx < p.n /\ p.es * p.n <= p.slen
 \* name() is called on yielded sections when names resolve, and also when the section table does not fit:
 \* a conforming implementation rejects such a tag before any section is yielded, so name() is never reached
 ElfNoFit(p) == ~(p.n * p.es <= p.slen /\ (p.n = 0 \/ (p.shndx + 1) * p.es <= p.slen))
+\* two ELF-sections tags in one region (64-byte entries first, 40-byte entries last before the end tag, and the other way
+\* round): their sections compared with one another through the value type's PartialEq / Ord / Hash
+ElfCmpParams == { [cmp |-> TRUE, ea |-> ea, eb |-> eb, na |-> na, nb |-> nb, rot |-> r]
+                  : ea \in {40, 64}, eb \in {40, 64}, na \in 1..2, nb \in 1..2, r \in {0, 3} }
+ElfCmpTag(es, n, rot) == ElfTag([n |-> n, es |-> es, shndx |-> 0, slen |-> es * n, rot |-> rot, atEnd |-> FALSE, strbad |-> FALSE])
+ElfCmpCase(p) ==
+  [mem |-> InfoImage(<<ElfCmpTag(p.ea, p.na, p.rot), ElfCmpTag(p.eb, p.nb, p.rot + 1)>>), al |-> 0,
+   ext |-> [addr |-> ExtAddr, data |-> ExtData],
+   calls |-> <<[op |-> "load"], [op |-> "elf_cmp"], [op |-> "dbg", what |-> "bi"]>>,
+   desc |-> [area |-> "elf"] @@ p]
+ElfParamsAll == ElfParamsSet \cup ElfCmpParams
 ElfCase(p) ==
+  IF "cmp" \in DOMAIN p THEN ElfCmpCase(p) ELSE
   [mem |-> InfoImage(IF p.atEnd THEN <<Neighbour, ElfTag(p)>> ELSE <<ElfTag(p), Neighbour>>), al |-> 0,
    ext |-> [addr |-> ExtAddr, data |-> ExtData],
    calls |-> <<[op |-> "load"], [op |-> "field", kind |-> "elf", f |-> "number_of_sections"],
